@@ -127,6 +127,36 @@ class Lib(lib_c01b.Lib):
                            "this": this, "body": None, "ret": ["k", k.name], "steps": steps, "tn": True,
                            "omitted": 0, "nparams": 0, "pk": [], "prep_octypes": oct_ + [OCT[k.oc]]})
 
+    def atom_GA(self, at):
+        """published array data member int m_arr[4] (setter only: no getter is exported)"""
+        static = at[1] == "static"
+        name = "HGA" + ("s" if static else "i")
+        h = self.host(name)
+        h.pub.append("  %sint m_arr[4];" % ("static " if static else ""))
+        show = "s += \" m_arr=\"; for (int i = 0; i < 4; ++i) { s += std::to_string(%s[i]); s += ','; }"
+        if static:
+            self.twin.append("int %s::m_arr[4] = { 0, 0, 0, 0 };\n" % name)
+            self.reset.append("for (int i = 0; i < 4; ++i) %s::m_arr[i] = 0;" % name)
+            h.sdesc = []
+            self.after_reset_static(name, h)
+            h.sdesc.append(show % (name + "::m_arr"))
+        else:
+            h.ctor_init.append("for (int i = 0; i < 4; ++i) m_arr[i] = 0;")
+            h.desc.append(show % "o->m_arr")
+        this = None if static else {"fac": "vf_new_" + name, "n": 2}
+        lhs = "%s::m_arr" % name if static else "((%s *)self)->m_arr" % name
+        es = self.entry()
+        # there is no array assignment in C++: "set" means element-wise assignment into the member
+        self.twin.append("extern \"C\" void %s(%sint *a0) { for (int i = 0; i < 4; ++i) %s[i] = a0[i]; }\n"
+                         % (es, "" if static else "void *self, ", lhs))
+        arrs = [[1, 2, 3, 4], [-1, 0, 2147483647, -2147483648], [5, 5, 5, 5], [0, 0, 0, 9]]
+        steps = [{"t": (j % 2) if this else None, "a": [{"arr": a}]} for j, a in enumerate(arrs)]
+        self.specs.append({"key": "GA/%s/set" % at[1], "family": "GA", "fn": "%s::set_m_arr" % name,
+                           "cats": ([] if static else [("ptr", ("class", name))]) + [("array", ("int", "int", True), 4)],
+                           "rcat": ("void",), "entry": es, "octypes": (["c_void_p"] if this else []) + ["arr_int"],
+                           "this": this, "body": None, "ret": ["void"], "steps": steps, "tn": True, "omitted": 0,
+                           "nparams": 1, "pk": ["arr"]})
+
     def after_reset_static(self, name, h):
         self.twin.append("static void vf_sdesc_%s(void *, std::string &s);\n" % name)
         self.reset.append("{ VfReg r = { 0, &vf_sdesc_%s }; g_reg.push_back(r); }" % name)
@@ -444,6 +474,8 @@ def enumerate_atoms(tier, string):
         for k in MEMBER_KINDS:
             if k in ks:
                 atoms.append(("G", st, k))
+    for st in ("inst", "static"):
+        atoms.append(("GA", st))
     for op in OPS:
         if op == "cast_cs" and not string:
             continue      # char pointers are wrapped only under -string
